@@ -113,6 +113,25 @@ McsOK(e) ==
         /\ Cardinality(res) = Len(e.result)              \* each exactly once
         /\ \A i \in DOMAIN e.result : Cardinality(ToSet(e.result[i])) = Len(e.result[i])
 
+(* C18: laws of ranking-function operations for an arbitrary ranking e.kap  *)
+(* (-1 = undefined rank)                                                   *)
+LawExp(e) ==
+    CASE e.ev = "frank"  -> FRank(e.kap, ToSet(e.worlds))
+      [] e.ev = "accept" -> Accepts(e.kap, e.cond)
+      [] e.ev = "marg"   -> Marg(e.kap, e.keep, e.natoms)
+      [] e.ev = "cond"   -> CondOn(e.kap, ToSet(e.worlds))
+      [] e.ev = "tpo"    -> Tpo(e.kap)
+LawOK(e) ==
+    CASE e.ev = "frank"  -> e.result = LawExp(e)
+      [] e.ev = "accept" -> e.result = LawExp(e)
+      [] e.ev = "marg"   -> SeqEq(e.result, LawExp(e))
+      [] e.ev = "cond"   -> {<<e.result[i][1], e.result[i][2]>> : i \in DOMAIN e.result} = LawExp(e) /\ Cardinality(LawExp(e)) = Len(e.result)
+      [] e.ev = "tpo"    -> /\ Len(e.layers) = Len(Tpo(e.kap))
+                            /\ \A i \in DOMAIN e.layers : ToSet(e.layers[i]) = Tpo(e.kap)[i]
+                            /\ SeqEq(e.back_rank, e.kap)             \* layers numbered by their ranks: exactly the ranks
+                            /\ SameOrder(e.back_id, e.kap)           \* any strictly increasing numbering preserves the order
+                            /\ SameOrder(e.back_inc, e.kap)
+
 (* IF/ELSE, not a disjunction: inside an action TLC explores both disjuncts *)
 Rej(ok, x, o) == IF ok THEN TRUE ELSE PrintT(ToJson([reject |-> l, exp |-> x, obs |-> o]))
 
@@ -122,6 +141,7 @@ Check(e) ==
       [] e.ev = "diag"      -> Rej(DiagExp(e) = e.flags, DiagExp(e), e.flags)
       [] e.ev = "cnf"       -> Rej(CnfOK(e), CnfExp(e), [v |-> e.v, f |-> e.f, nf |-> e.nf])
       [] e.ev = "mcs"       -> Rej(McsOK(e), McsExp(e), e.result)
+      [] e.ev \in {"frank", "accept", "marg", "cond", "tpo"} -> Rej(LawOK(e), LawExp(e), e.ev)
       [] e.ev = "cwit"      -> Rej(CWitOK(e), "c-representation refuting q", e.eta)
       [] OTHER -> Rej(FALSE, "known event kind", e.ev)
 
